@@ -3,6 +3,7 @@ package main
 // C03 — replicas converge: state depends only on the log, not on batching.
 
 import (
+	"go/token"
 	"go/types"
 	"strconv"
 	"strings"
@@ -15,7 +16,7 @@ func init() {
 }
 
 func checkC03(w *World, r *Report) {
-	r.Decides = "C03 is decided in its structural part only: (a) no value written to the apply batch, to the entry results or returned by a command handler derives from the wall clock, randomness, the environment, host identity or a per-replica field, and no map iteration or goroutine feeds those sinks; (b) every field of the apply context that is written per entry and read by the commit after the loop is either assigned on every entry from a non-optional source or assigned from an optional source only when that source is present (so the commit does not depend on where the batch was cut); (c) every command result carries the entry's own index as revision; (d) switching the batch to an indexed one loses nothing; (e) both snapshot formats carry bookkeeping keys together with the data (SST: unfiltered iterator over the prepared snapshot, every pair written; checkpoint: flush before checkpoint, every listed file written); (f) Update applies every entry of an apply call: the loop visits entries[0..len-1] one by one, every iteration crosses the command step, and the loop is never left with success from inside an iteration; (g) a snapshot is recovered in the format its own header names, whatever format this replica is configured to produce (C08.a)."
+	r.Decides = "C03 is decided in its structural part only: (a) no value written to the apply batch, to the entry results or returned by a command handler derives from the wall clock, randomness, the environment, host identity or a per-replica field, and no map iteration or goroutine feeds those sinks; (b) every field of the apply context that is written per entry and read by the commit after the loop is either assigned on every entry from a non-optional source or assigned from an optional source only when that source is present (so the commit does not depend on where the batch was cut); (c) every command result carries the entry's own index as revision; (d) switching the batch to an indexed one loses nothing; (e) both snapshot formats carry bookkeeping keys together with the data (SST: unfiltered iterator over the prepared snapshot, every pair written; checkpoint: flush before checkpoint, every listed file written); (f) Update applies every entry of an apply call: the loop visits entries[0..len-1] one by one, every iteration crosses the command step, and the loop is never left with success from inside an iteration; (g) a snapshot is recovered in the format its own header names, whatever format this replica is configured to produce (C08.a). (h) no local of the entry loop carried from one entry to the next reaches a write or a reported result; (i) every command is decoded into a fresh or fully reset message; (j) only plain write operations reach the batch."
 	r.NotDecided = []string{"equality of two replicas' content (needs Pebble determinism)", "restart and snapshot interleavings beyond the orderings of C04/C08"}
 	r.Assume = []string{"metrics and logging are not replicated state", "the log entries themselves are identical on all replicas (Raft)"}
 	a := w.FsmAnchors()
@@ -31,6 +32,9 @@ func checkC03(w *World, r *Report) {
 	c03Snapshots(w, r, a, "C03.e", "e-snapshots-carry-bookkeeping")
 	applyLoopComplete(w, r, a, "C03.f", "f-every-entry-applied")
 	c08Dispatch(w, r, a, "C03.g", "g-snapshot-format-from-stream")
+	c03NoCarriedLocals(w, r, a, "C03.h", "h-no-local-carried-across-entries")
+	c01FreshDecode(w, r, a, "C03.i", "i-fresh-decode-target")
+	c01WriteKinds(w, r, a, "C03.j", "j-plain-write-operations")
 }
 
 func c03Determinism(w *World, r *Report, a *FsmA) {
@@ -463,4 +467,172 @@ func c03Snapshots(w *World, r *Report, a *FsmA, id, slug string) {
 		}
 	}
 	ob.NeedFloor(7)
+}
+
+// replicatedSink: the places where a value becomes replicated state or a reported result.
+func replicatedSink(a *FsmA) func(in ssa.Instruction, v ssa.Value) string {
+	handlerSet := map[*ssa.Function]bool{}
+	for _, h := range a.Handlers {
+		handlerSet[h] = true
+	}
+	return func(in ssa.Instruction, v ssa.Value) string {
+		if c := callOf(in); c != nil {
+			n := CalleeName(c)
+			if batchWrites[n] || dbWrites[n] {
+				return "argument of " + shortName(n)
+			}
+		}
+		if st, ok := in.(*ssa.Store); ok && st.Val == v {
+			if fa, ok := st.Addr.(*ssa.FieldAddr); ok {
+				bt := deref(fa.X.Type())
+				if typeIs(bt, smPath, "Result") || typeIs(bt, smPath, "Entry") || typeIs(bt, pbPkg, "CommandResult") || typeIs(bt, pbPkg, "ResponseOp_Put") || typeIs(bt, pbPkg, "ResponseOp_DeleteRange") || typeIs(bt, pbPkg, "ResponseOp_Range") {
+					return "store to " + typeString(bt) + "." + fieldAddrName(fa)
+				}
+			}
+		}
+		if ret, ok := in.(*ssa.Return); ok && handlerSet[ret.Parent()] {
+			return "return value of handler " + FnName(ret.Parent())
+		}
+		return ""
+	}
+}
+
+// c03NoCarriedLocals: a local of Update that is carried from one entry of the apply call to the
+// next (a loop-header phi other than the induction variable) reaches no batch write and no entry
+// result. What an entry reports and writes then depends only on the entry and on the state, not on
+// which entries happened to be applied in the same call before it.
+func c03NoCarriedLocals(w *World, r *Report, a *FsmA, id, slug string) {
+	ob := r.Ob(id, slug, "in the loops of the apply path over the entries of an apply call (Update and the functions it hands the entries to), no loop-carried local - a loop-header phi other than the induction variable - flows into a batch write, a stored entry result or a handler's return value (forward data flow through phis, conversions, struct construction and calls)", "dragonboat groups committed entries into apply calls differently on every replica and on replay: a result or write that depends on an earlier entry of the same call differs between replicas")
+	t := NewTaint(w, a.applyReach())
+	n := 0
+	for _, fn := range sortedFuncs(a.applyReach()) {
+		if !isFsmFunc(fn) || isGenerated(fn) {
+			continue
+		}
+		for _, sl := range sliceLoops(fn) {
+			// only loops over the entries of the apply call
+			st, isSlice := sl.Slice.Type().Underlying().(*types.Slice)
+			if !isSlice || !typeIs(st.Elem(), smPath, "Entry") {
+				continue
+			}
+			n++
+			for _, in := range sl.Head.Instrs {
+				phi, ok := in.(*ssa.Phi)
+				if !ok {
+					break
+				}
+				if phi == sl.Counter || isInductionPhi(phi) {
+					continue
+				}
+				ob.Site(phi.Pos(), "local carried across entries in "+FnName(fn)+": "+phi.Comment)
+				t.Mark(phi, "a local ("+phi.Comment+") carried over from an earlier entry of the same apply call")
+			}
+		}
+	}
+	if n == 0 {
+		ob.Undecided("shape", "no loop over the entries of an apply call found in the apply path")
+		return
+	}
+	t.IsSink = replicatedSink(a)
+	t.Run()
+	seen := map[string]bool{}
+	for _, h := range t.Hits {
+		k := "carried-local@" + FnName(h.At.Parent())
+		if seen[k+h.Sink] {
+			continue
+		}
+		seen[k+h.Sink] = true
+		ob.Violate(k, instrPos(h.At), h.Reason+" reaches "+h.Sink+": what this entry reports or writes depends on the entries applied before it in the same call")
+	}
+}
+
+func isInductionPhi(phi *ssa.Phi) bool {
+	for _, e := range phi.Edges {
+		if bo, ok := e.(*ssa.BinOp); ok && (bo.Op == token.ADD || bo.Op == token.SUB) {
+			if bo.X == ssa.Value(phi) || bo.Y == ssa.Value(phi) {
+				if _, isC := bo.Y.(*ssa.Const); isC {
+					return true
+				}
+				if _, isC := bo.X.(*ssa.Const); isC {
+					return true
+				}
+			}
+		}
+	}
+	return false
+}
+
+// c01FreshDecode: every command is decoded into a message that holds nothing of an earlier one.
+func c01FreshDecode(w *World, r *Report, a *FsmA, id, slug string) {
+	ob := r.Ob(id, slug, "every UnmarshalVT / UnmarshalVTUnsafe / proto.Unmarshal into a *regattapb.Command in the module decodes into a message allocated for this decode (a `new` of the same activation, not reused round a loop) or one that a full Reset() (the generated `*x = Command{}`) emptied on every way there; ResetVT and pooled messages are not accepted - they keep zero-length, non-nil slices, and a missing optional field then reads as present", "a single-key delete decoded into a recycled message keeps the previous command's (empty, non-nil) range_end and runs as a range delete; whether that happens depends on which entries share an apply call")
+	isCmdPtr := func(t types.Type) bool {
+		pt, ok := t.(*types.Pointer)
+		return ok && typeIs(pt.Elem(), pbPkg, "Command")
+	}
+	root := func(v ssa.Value) ssa.Value {
+		for d := 0; d < 6; d++ {
+			switch x := v.(type) {
+			case *ssa.MakeInterface:
+				v = x.X
+			case *ssa.ChangeInterface:
+				v = x.X
+			case *ssa.ChangeType:
+				v = x.X
+			default:
+				return v
+			}
+		}
+		return v
+	}
+	for _, fn := range w.ModFuncs() {
+		if isGenerated(fn) || fn.Synthetic != "" {
+			continue
+		}
+		eachInstr(fn, func(in ssa.Instruction) {
+			c := callOf(in)
+			if c == nil {
+				return
+			}
+			n := CalleeName(c)
+			var target ssa.Value
+			switch {
+			case strings.HasSuffix(n, ".Command).UnmarshalVT") || strings.HasSuffix(n, ".Command).UnmarshalVTUnsafe"):
+				target = c.Args[0]
+			case n == "google.golang.org/protobuf/proto.Unmarshal" && len(c.Args) == 2:
+				target = root(c.Args[1])
+			case c.IsInvoke() && (c.Method.Name() == "UnmarshalVT" || c.Method.Name() == "UnmarshalVTUnsafe"):
+				target = root(c.Value)
+			}
+			if target == nil || !isCmdPtr(target.Type()) {
+				return
+			}
+			ob.Site(in.Pos(), "command decoded into "+Expr(target)+" in "+FnName(fn))
+			isReset := func(x ssa.Instruction) bool {
+				cc := callOf(x)
+				if cc == nil || len(cc.Args) == 0 {
+					return false
+				}
+				if !strings.HasSuffix(CalleeName(cc), ".Command).Reset") {
+					return false
+				}
+				return cc.Args[0] == target || sameValue(cc.Args[0], target)
+			}
+			isThis := func(x ssa.Instruction) bool { return x == in }
+			if al, ok := target.(*ssa.Alloc); ok && al.Parent() == fn {
+				// fresh, unless the decode sits in a loop the allocation is outside of
+				h, body := loopOf(in.Block())
+				if h == nil || body[al.Block()] {
+					return
+				}
+				if p := (&Walk{Barrier: isReset, Target: isThis, EdgeOK: func(b *ssa.BasicBlock, k int) bool { return body[b.Succs[k]] }}).Find(after(in)); p != nil {
+					ob.Violate("decode-into-used-message@"+FnName(fn), in.Pos(), "the loop decodes the next command into the message of the previous one without a full Reset() in between", w.PathString(p)...)
+				}
+				return
+			}
+			if p := (&Walk{Barrier: isReset, Target: isThis}).Find(entry(fn)); p != nil {
+				ob.Violate("decode-into-used-message@"+FnName(fn), in.Pos(), "the command is decoded into `"+Expr(target)+"`, a message that is neither allocated for this decode nor emptied by a full Reset() on every way here (ResetVT and pooled messages keep zero-length slices: absent fields read as present)", w.PathString(p)...)
+			}
+		})
+	}
+	ob.NeedFloor(2)
 }
